@@ -265,6 +265,7 @@ def lossless_casts(cx, fns, audited, consequence):
                 if ob['kind'] == 'cast':
                     k = tuple(ob['pos'])
                     proved[k] = proved.get(k, True) and ob['ok']
+        nunproven = {}
         for i, pos in enumerate(sorted(casts)):
             st = fn.blocks[pos.bb]['st'][pos.idx]
             o = st['rv']['o']
@@ -279,11 +280,23 @@ def lossless_casts(cx, fns, audited, consequence):
             cx.count_sites()
             if ok:
                 cx.ok(inst, fn, fn.loc(pos.bb, pos.idx), '`as %s` is lossless on every path' % dty)
-            elif key in audited:
-                cx.ok(inst + ':audited', fn, fn.loc(pos.bb, pos.idx), 'NOT DECIDED (audited): ' + audited[key])
+            elif (sk := _sigkey(fn, sty, dty, nunproven)) and (key in audited or sk in audited):
+                cx.ok(inst + ':audited', fn, fn.loc(pos.bb, pos.idx), 'NOT DECIDED (audited): ' + (audited.get(key) or audited[sk]))
             else:
                 cx.fail(inst, fn, fn.loc(pos.bb, pos.idx), '`%s as %s` can drop high bits: the value is not bounded by the target type on every path (%s)'
                         % (show(fn.operand_expr(o))[:80], dty, consequence))
+
+
+def _sigkey(fn, sty, dty, counters, peek=False):
+    """second key of an audited cast, stable under edits that add or remove *other* casts in the function: the k-th cast
+    of this source and target type that the evaluator could not prove (function|cast|usize->u32|unproven#k)"""
+    sig = '%s->%s' % (sty, dty)
+    k = counters.get(sig, 0)
+    if peek:
+        k -= 1
+    else:
+        counters[sig] = k + 1
+    return '%s|cast|%s|unproven#%d' % (fn.name, sig, k)
 
 
 def field_or_accessor(prog, e, field, param=1):
